@@ -6,6 +6,8 @@ import (
 	"database/sql/driver"
 	"fmt"
 	"io"
+	"runtime"
+	"strconv"
 	"strings"
 	"sync"
 
@@ -41,11 +43,74 @@ type connector struct {
 	hooks      *SQLHooks
 	cachePages int
 	drv        *sqlite3.SQLiteDriver
+	cursors    *Cursors
+}
+
+// Cursors tracks the result sets handed to API handlers. Result sets are
+// materialised (no real cursor stays open across a scheduler yield), so a
+// handler that forgets to close one would go unnoticed; in production the
+// cursor keeps its SHARED lock and its pooled connection for good, and in
+// rollback-journal mode the sync loop's next COMMIT fails with "database is
+// locked". The simulation makes that consequence real: once a handler has
+// returned with an open result set the database counts as read-locked.
+type Cursors struct {
+	mu     sync.Mutex
+	open   map[*rows]int64 // result set -> goroutine that obtained it
+	Leaked int             // result sets still open when their handler returned
+	wal    bool
+}
+
+// GoID returns the id of the calling goroutine.
+func GoID() int64 {
+	var buf [64]byte
+	n := runtime.Stack(buf[:], false)
+	f := strings.Fields(string(buf[:n]))
+	if len(f) < 2 {
+		return 0
+	}
+	id, _ := strconv.ParseInt(f[1], 10, 64)
+	return id
+}
+
+// HandlerReturned is called when an API handler running on the calling
+// goroutine has returned: result sets it obtained and left open are leaks.
+func (c *Cursors) HandlerReturned() int {
+	if c == nil {
+		return 0
+	}
+	g := GoID()
+	c.mu.Lock()
+	defer c.mu.Unlock()
+	n := 0
+	for r, owner := range c.open {
+		if owner == g {
+			n++
+			delete(c.open, r)
+		}
+	}
+	c.Leaked += n
+	return n
+}
+
+func (c *Cursors) readLocked() bool {
+	if c == nil {
+		return false
+	}
+	c.mu.Lock()
+	defer c.mu.Unlock()
+	return c.Leaked > 0 && !c.wal
 }
 
 // OpenDB opens the database behind the statement seam.
 func OpenDB(dsn string, hooks *SQLHooks, cachePages int) *sql.DB {
-	return sql.OpenDB(&connector{dsn: dsn, hooks: hooks, cachePages: cachePages, drv: &sqlite3.SQLiteDriver{}})
+	db, _ := OpenDBCursors(dsn, hooks, cachePages)
+	return db
+}
+
+// OpenDBCursors is OpenDB returning the cursor tracker of the handle as well.
+func OpenDBCursors(dsn string, hooks *SQLHooks, cachePages int) (*sql.DB, *Cursors) {
+	cur := &Cursors{open: map[*rows]int64{}, wal: strings.Contains(dsn, "_journal=WAL") || strings.Contains(dsn, "_journal_mode=WAL")}
+	return sql.OpenDB(&connector{dsn: dsn, hooks: hooks, cachePages: cachePages, drv: &sqlite3.SQLiteDriver{}, cursors: cur}), cur
 }
 
 // OpenDBVFS is OpenDB with the files of the database routed through the
@@ -80,14 +145,15 @@ func (c *connector) Connect(ctx context.Context) (driver.Conn, error) {
 			return nil, err
 		}
 	}
-	return &conn{c: sc, hooks: c.hooks}, nil
+	return &conn{c: sc, hooks: c.hooks, cursors: c.cursors}, nil
 }
 
 type conn struct {
-	c     *sqlite3.SQLiteConn
-	hooks *SQLHooks
-	mu    sync.Mutex
-	inTx  bool
+	c       *sqlite3.SQLiteConn
+	cursors *Cursors
+	hooks   *SQLHooks
+	mu      sync.Mutex
+	inTx    bool
 }
 
 func sqlCaller() string {
@@ -159,9 +225,20 @@ func (c *conn) QueryContext(ctx context.Context, q string, args []driver.NamedVa
 	r, err := c.c.QueryContext(ctx, q, args)
 	if err == nil {
 		r, err = materialise(r)
+		c.track(ev, r)
 	}
 	c.after(ev, err)
 	return r, err
+}
+
+// track registers a result set handed to an API handler.
+func (c *conn) track(ev *SQLEvent, r driver.Rows) {
+	if rr, ok := r.(*rows); ok && c.cursors != nil && strings.HasPrefix(ev.Caller, "api:") {
+		rr.cur = c.cursors
+		c.cursors.mu.Lock()
+		c.cursors.open[rr] = GoID()
+		c.cursors.mu.Unlock()
+	}
 }
 
 type tx struct {
@@ -176,6 +253,16 @@ func (t *tx) Commit() error {
 		// itself on I/O errors) the transaction is rolled back
 		t.t.Rollback()
 		t.c.inTx = false
+		t.c.after(ev, err)
+		return err
+	}
+	if t.c.cursors.readLocked() && !strings.HasPrefix(ev.Caller, "api:") {
+		// a cursor leaked by an API handler still holds its SHARED lock: the
+		// COMMIT cannot get the exclusive lock (SQLITE_BUSY once the busy
+		// timeout has passed); the driver rolls the transaction back
+		t.t.Rollback()
+		t.c.inTx = false
+		err = sqlite3.Error{Code: sqlite3.ErrBusy}
 		t.c.after(ev, err)
 		return err
 	}
@@ -227,6 +314,7 @@ func (s *stmt) QueryContext(ctx context.Context, args []driver.NamedValue) (driv
 	r, err := s.s.QueryContext(ctx, args)
 	if err == nil {
 		r, err = materialise(r)
+		s.c.track(ev, r)
 	}
 	s.c.after(ev, err)
 	return r, err
@@ -246,6 +334,7 @@ type rows struct {
 	cols []string
 	data [][]driver.Value
 	i    int
+	cur  *Cursors
 }
 
 func materialise(r driver.Rows) (driver.Rows, error) {
@@ -269,7 +358,14 @@ func materialise(r driver.Rows) (driver.Rows, error) {
 	}
 }
 func (r *rows) Columns() []string { return r.cols }
-func (r *rows) Close() error      { return nil }
+func (r *rows) Close() error {
+	if r.cur != nil {
+		r.cur.mu.Lock()
+		delete(r.cur.open, r)
+		r.cur.mu.Unlock()
+	}
+	return nil
+}
 func (r *rows) Next(dest []driver.Value) error {
 	if r.i >= len(r.data) {
 		return io.EOF
